@@ -4,10 +4,12 @@
 package read
 
 import (
+	"encoding/json"
 	"errors"
 	"fmt"
 	"math"
 	"sort"
+	"strconv"
 
 	simdjson "github.com/minio/simdjson-go"
 
@@ -25,6 +27,7 @@ type Reader struct {
 var ErrBudget = errors.New("read: step budget exhausted (non-terminating traversal?)")
 
 type budget struct {
+	n0    int // the initial budget (for independent re-reads)
 	n     int
 	small bool // small tape: additionally call Interface() on every iterator met on the way
 }
@@ -57,7 +60,7 @@ func (b *budget) step() {
 }
 
 func newBudget(pj *simdjson.ParsedJson) *budget {
-	return &budget{n: 8*len(pj.Tape) + 64, small: len(pj.Tape) <= 3000}
+	return &budget{n0: 8*len(pj.Tape) + 64, n: 8*len(pj.Tape) + 64, small: len(pj.Tape) <= 3000}
 }
 
 func guard(err *error) {
@@ -71,6 +74,44 @@ func guard(err *error) {
 }
 
 func scalar(it *simdjson.Iter, typ simdjson.Type) (abs.Value, error) {
+	v, err := scalar0(it, typ)
+	if err != nil {
+		return v, err
+	}
+	// StringCvt renders every scalar the way marshalling does (strings as they are)
+	cvt, cerr := it.StringCvt()
+	want := ""
+	switch v.K {
+	case 'n':
+		want = "null"
+	case 't':
+		want = "true"
+	case 'f':
+		want = "false"
+	case 's':
+		want = string(v.Str)
+	case '#':
+		switch v.NT {
+		case 'l':
+			want = strconv.FormatInt(int64(v.NBits), 10)
+		case 'u':
+			want = strconv.FormatUint(v.NBits, 10)
+		default:
+			f := math.Float64frombits(v.NBits)
+			if math.IsNaN(f) || math.IsInf(f, 0) {
+				return v, nil // a non-finite float (SetFloat) has no text
+			}
+			jb, _ := json.Marshal(f)
+			want = string(jb)
+		}
+	}
+	if cerr != nil || cvt != want {
+		return v, fmt.Errorf("StringCvt() = %q (%v), want %q", cvt, cerr, want)
+	}
+	return v, nil
+}
+
+func scalar0(it *simdjson.Iter, typ simdjson.Type) (abs.Value, error) {
 	switch typ {
 	case simdjson.TypeNull:
 		return abs.Value{K: 'n'}, nil
@@ -176,9 +217,14 @@ func valueA(it *simdjson.Iter, typ simdjson.Type, b *budget) (abs.Value, error) 
 		}
 		out := abs.Value{K: 'a', Arr: []abs.Value{}}
 		ai := arr.Iter()
+		ft, first := arr.FirstType(), true
 		for {
 			b.step()
 			pk := ai.PeekNext()
+			if first && pk != ft {
+				return abs.Value{}, fmt.Errorf("Array.FirstType() = %v but the first element is %v", ft, pk)
+			}
+			first = false
 			t := ai.Advance()
 			if pk != t {
 				return abs.Value{}, fmt.Errorf("PeekNext announced %v but Advance delivered %v", pk, t)
@@ -486,6 +532,125 @@ func readD(pj *simdjson.ParsedJson) (out []abs.Value, err error) {
 	}
 }
 
+// ---- E: the same walk as A with REUSED destinations (Root(dst), Object(dst), Array(dst), FindKey(.., dst)) -------------
+
+type reuseState struct {
+	objs  []simdjson.Object
+	arrs  []simdjson.Array
+	elems []simdjson.Element
+}
+
+func (r *reuseState) at(depth int) (*simdjson.Object, *simdjson.Array, *simdjson.Element) {
+	for len(r.objs) <= depth {
+		r.objs = append(r.objs, simdjson.Object{})
+		r.arrs = append(r.arrs, simdjson.Array{})
+		r.elems = append(r.elems, simdjson.Element{})
+	}
+	return &r.objs[depth], &r.arrs[depth], &r.elems[depth]
+}
+
+func valueE(it *simdjson.Iter, typ simdjson.Type, b *budget, rs *reuseState, depth int) (abs.Value, error) {
+	b.step()
+	od, ad, ed := rs.at(depth)
+	switch typ {
+	case simdjson.TypeObject:
+		obj, err := it.Object(od)
+		if err != nil {
+			return abs.Value{}, err
+		}
+		out := abs.Value{K: 'o', Obj: []abs.Member{}}
+		var tmp simdjson.Iter
+		seen := map[string]bool{}
+		for {
+			b.step()
+			name, t, err := obj.NextElementBytes(&tmp)
+			if err != nil {
+				return abs.Value{}, err
+			}
+			if t == simdjson.TypeNone {
+				break
+			}
+			key := append([]byte{}, name...)
+			v, err := valueE(&tmp, t, b, rs, depth+1)
+			if err != nil {
+				return abs.Value{}, err
+			}
+			// FindKey into a reused Element finds the FIRST member with this key
+			if b.small && depth < 4 && !seen[string(key)] { // (re-reading every subtree at every depth would be quadratic)
+				seen[string(key)] = true
+				cp := *it
+				if o2, e2 := cp.Object(nil); e2 == nil {
+					fe := o2.FindKey(string(key), ed)
+					if fe == nil {
+						return abs.Value{}, fmt.Errorf("FindKey(%q, reused element) = nil for a member that is there", key)
+					}
+					fv, ferr := valueA(&fe.Iter, fe.Type, &budget{n: b.n0})
+					if ferr != nil {
+						return abs.Value{}, fmt.Errorf("FindKey(%q, reused element): %w", key, ferr)
+					}
+					if merr := abs.Match(v, fv, true); merr != nil {
+						return abs.Value{}, fmt.Errorf("FindKey(%q, reused element) found another value: %w", key, merr)
+					}
+				}
+			}
+			out.Obj = append(out.Obj, abs.Member{Key: key, Val: v})
+		}
+		return out, nil
+	case simdjson.TypeArray:
+		arr, err := it.Array(ad)
+		if err != nil {
+			return abs.Value{}, err
+		}
+		out := abs.Value{K: 'a', Arr: []abs.Value{}}
+		ai := arr.Iter()
+		var elem simdjson.Iter
+		for {
+			b.step()
+			t, err := ai.AdvanceIter(&elem)
+			if err != nil {
+				return abs.Value{}, err
+			}
+			if t == simdjson.TypeNone {
+				break
+			}
+			v, err := valueE(&elem, t, b, rs, depth+1)
+			if err != nil {
+				return abs.Value{}, err
+			}
+			out.Arr = append(out.Arr, v)
+		}
+		return out, nil
+	}
+	return scalar(it, typ)
+}
+
+func readE(pj *simdjson.ParsedJson) (out []abs.Value, err error) {
+	defer guard(&err)
+	b := newBudget(pj)
+	rs := &reuseState{}
+	it := pj.Iter()
+	var tmp simdjson.Iter // the same destination for every root
+	for {
+		b.step()
+		t := it.Advance()
+		if t == simdjson.TypeNone {
+			return out, nil
+		}
+		if t != simdjson.TypeRoot {
+			return nil, fmt.Errorf("top-level type %v", t)
+		}
+		rt, ri, err := it.Root(&tmp)
+		if err != nil {
+			return nil, err
+		}
+		v, err := valueE(ri, rt, b, rs, 0)
+		if err != nil {
+			return nil, err
+		}
+		out = append(out, v)
+	}
+}
+
 // ---- I: Iter.Interface ------------------------------------------------------
 
 func FromInterface(x interface{}) (abs.Value, error) {
@@ -561,6 +726,7 @@ var All = []Reader{
 	{"AdvanceIter+ForEach", true, true, readB},
 	{"AdvanceInto", true, true, readC},
 	{"Object.Parse+Array.ForEach", true, true, readD},
+	{"reused destinations (Root/Object/Array/FindKey dst)", true, true, readE},
 	{"Interface", false, false, readI},
 }
 
